@@ -25,13 +25,13 @@ BOUND = {"quick": "deviation bound 2 around the centre of one 11-cell base, ever
 ASSUMPTIONS = ["tolerance = 3 x (5e-4 sqrt(rows)) / sigma_min(reference augmented system) + 10 x (matrix error) x sqrt(nnz) x |z| / sigma_min + solver term",
                "displacements are kept far inside the tracking bounds of C12 (|v| dt <= 3% of the smallest junction spacing)",
                "instances with a tangent mirrored by sign forcing (finding F1) give no verdict"]
-REQUIRED_TAGS = {"all": ["verdict", "first", "middle", "last", "unequal_times", "renumbered", "solver:lsq", "solver:lsq_linear", "basis_vector"]}
+REQUIRED_TAGS = {"all": ["verdict", "first", "middle", "last", "unequal_times", "renumbered", "solver:lsq", "solver:lsq_linear", "basis_vector", "id0_on_junction"]}
 
 TIMES = {"equal": lambda n: [float(i) for i in range(n)],
          "unequal": lambda n: [0.0, 1.0, 4.0, 4.5, 6.5][:n],
          "offset": lambda n: [5.0 + 0.25 * i for i in range(n)],
          "tiny": lambda n: [1e-3 * i for i in range(n)]}
-VMAPS = [["id"], ["rev"], ["gap", 3, 7], ["off", 10 ** 6]]
+VMAPS = [["id"], ["rev"], ["gap", 3, 7], ["off", 10 ** 6], ["swap0"]]
 
 
 def tension_vector(n, spec):
@@ -118,9 +118,14 @@ class Dynamics(ProductSystem):
             return {"viol": [], "tags": ["vacuous:rank"], "cls": "vac", "outdom": True}
         pf1 = c01.predicted_f1(at, cfg["k"], cm)
         spec = []
+        # "swap0": vertex id 0 is given to a junction that has equations (ids 0 / None are easily confused in bookkeeping code)
+        jsorted = sorted(at["J"], key=int)
+        zero_j = jsorted.index(ref["rows"][len(ref["rows"]) // 2])
         for t in range(L):
             dz = {j: z * (times[t] - times[f]) for j, z in vj.items()}
-            spec.append({"at": at, "k": cfg["k"], "cmap": cm, "post": SC.displace_post(at, dz), "time": times[t], "lab": {"vmap": cfg["vm%d" % t]}})
+            vm = cfg["vm%d" % t]
+            vm = ["swap", 0, zero_j] if vm == ["swap0"] else vm
+            spec.append({"at": at, "k": cfg["k"], "cmap": cm, "post": SC.displace_post(at, dz), "time": times[t], "lab": {"vmap": vm}})
         s, infos, ex = SC.build_series(spec)
         if ex is not None:
             return {"viol": [{"what": "ForSys construction raised", "detail": fsutil.exc_str(ex)}], "tags": [], "cls": "exc"}
@@ -156,6 +161,8 @@ class Dynamics(ProductSystem):
             tags.append("unequal_times")
         if any(cfg["vm%d" % t] != ["id"] for t in range(L)):
             tags.append("renumbered")
+        if any(cfg["vm%d" % t] == ["swap0"] for t in range(L)):
+            tags.append("id0_on_junction")
         tags.append("solver:%s" % cfg["solver"])
         if cfg["tvec"][0] == "basis":
             tags.append("basis_vector")
